@@ -198,3 +198,27 @@ func (c *ReuseCodec) Decode(oldPixelData, newPixelData imagetypes.PixelData, par
 }
 
 var _ codec.Codec = (*ReuseCodec)(nil)
+
+// SharedDefaultsCodec keeps one parameters object for everybody (NO-SHARED-RESULT control).
+type SharedDefaultsCodec struct {
+	defaults *params
+}
+
+// NewSharedDefaultsCodec builds the codec with its single defaults object.
+func NewSharedDefaultsCodec() *SharedDefaultsCodec {
+	return &SharedDefaultsCodec{defaults: &params{m: map[string]interface{}{}}}
+}
+
+func (c *SharedDefaultsCodec) Name() string                     { return "shared-defaults" }
+func (c *SharedDefaultsCodec) TransferSyntax() *transfer.Syntax { return nil }
+
+// GetDefaultParameters hands out the codec's own object: NO-SHARED-RESULT violated.
+func (c *SharedDefaultsCodec) GetDefaultParameters() codec.Parameters { return c.defaults }
+func (c *SharedDefaultsCodec) Encode(oldPixelData, newPixelData imagetypes.PixelData, parameters codec.Parameters) error {
+	return nil
+}
+func (c *SharedDefaultsCodec) Decode(oldPixelData, newPixelData imagetypes.PixelData, parameters codec.Parameters) error {
+	return nil
+}
+
+var _ codec.Codec = (*SharedDefaultsCodec)(nil)
